@@ -64,6 +64,7 @@ INVARIANT NoStuck
 INVARIANT AtMostOnce
 INVARIANT CleanStarts
 INVARIANT OutcomeOK
+INVARIANT SiblingsConcurrent
 CHECK_DEADLOCK FALSE
 '''
 
